@@ -330,6 +330,9 @@ func init() {
 			if class == "panic" {
 				out.Violate("C08|filter-panics", "Filter panicked: "+errText, f, nil, nil)
 			}
+			if class == "other-error" {
+				out.Violate("C08|filter-undocumented-error", "Filter rejects an option set with an error that is neither 'unknown lint name' nor the name-pattern exclusivity error: "+errText, f, "a registry or a documented error", errText)
+			}
 			if class == "ok" {
 				sel := map[string]bool{}
 				for _, nm := range fr.Names() {
